@@ -103,6 +103,7 @@ def mk_history(max_persist, kinds, per_label_config=False, tier='quick', timeout
         bus = sf.Bus._from_store(store, config=cfg, max_persist=max_persist)
         lru = RefLRU(max_persist)
         trace, exp = [], []
+        derived_later = []
         for si, kind in enumerate(kinds):
             n_log = len(store.log)
             if kind == 'int':
@@ -124,6 +125,19 @@ def mk_history(max_persist, kinds, per_label_config=False, tier='quick', timeout
                 r = bus.iloc[[k, j]]
                 trace.append(env.obs(r.index.values.tolist()))
                 exp.append(labels)
+            elif kind == 'derive_slice':
+                # a Bus derived by a SLICE after its members were loaded: later loads / evictions of the parent must not show in it
+                k = kw[f'k{si}']
+                lo = 0 if k < 2 else 1
+                _ = bus.iloc[[lo, lo + 1]]                      # load them in the parent first
+                for l in (LABELS[lo], LABELS[lo + 1]):
+                    lru.access(l)
+                d = bus.iloc[lo:lo + 2]
+                derived_later.append((d, [LABELS[lo], LABELS[lo + 1]]))
+                trace.append(env.obs(d.index.values.tolist()))
+                exp.append([LABELS[lo], LABELS[lo + 1]])
+                labels = []
+                n_log = len(store.log)
             elif kind == 'derive_drop':
                 k = kw[f'k{si}']
                 d = bus.drop.iloc[k]
@@ -156,6 +170,15 @@ def mk_history(max_persist, kinds, per_label_config=False, tier='quick', timeout
             if max_persist is not None:
                 trace.append(sum(1 for x in bus._loaded.tolist() if x) <= max_persist)
                 exp.append(True)
+        # every Bus derived on the way still serves the right Frames, through every read route
+        for d, labs in derived_later:
+            got = []
+            for l in labs:
+                f = d.loc[l]
+                got.append([isinstance(f, sf.Frame), env.obs(f.name) if isinstance(f, sf.Frame) else repr(f), env.obs(f.values.tolist()) if isinstance(f, sf.Frame) else None])
+            got.append([[env.obs(n), isinstance(f, sf.Frame)] for n, f in d.items()])
+            trace.append(got)
+            exp.append([[True, l, [[10 * LABELS.index(l)], [10 * LABELS.index(l) + 1]]] for l in labs] + [[[l, True] for l in labs]])
         return trace, exp
     params = []
     for si, kind in enumerate(kinds):
@@ -175,6 +198,8 @@ _add(mk_history(1, ('int', 'int', 'int')))
 _add(mk_history(2, ('int', 'list', 'int')))
 _add(mk_history(2, ('list', 'loc', 'int')))
 _add(mk_history(1, ('list', 'int'), per_label_config=True))
+_add(mk_history(1, ('derive_slice', 'int', 'int')))
+_add(mk_history(2, ('derive_slice', 'list', 'int')))
 _add(mk_history(2, ('list', 'int'), per_label_config=True))
 _add(mk_history(2, ('int', 'derive_drop', 'int')))
 _add(mk_history(3, ('list', 'list', 'int')))
@@ -257,3 +282,44 @@ _add(Cond('store_mtime_coherence', [('e0', 'bool'), ('m0', 'int'), ('e1', 'bool'
         functions=['Store._mtime_update', 'Store._mtime_coherent'],
         bounds='three file-system observations (exists: symbolic bool, mtime: symbolic in 0..2) at construction, at a read-or-write, and at a final read',
         route='Store read raises StoreFileMutation iff the file was modified, replaced or removed since the state was recorded; a write re-records', timeout=300))
+
+
+
+# ---------------------------------------------------------------- zipped stores: labels survive the archive member names
+
+def body_zip_labels(env, l0, l1, l2, strip):
+    """The real _StoreZip.write / labels over the in-memory archive of harness/C18: labels with dots, with the contained
+    extension inside them, and plain ones come back exactly, in order."""
+    from vf import rt
+    from harness.C18 import _probe_store
+    pool = ('a', 'v1.0', 'a.b.c', 'x.txt.y', 'plain', '2020-01-01 00:00:00.5')
+    labs = []
+    for v in (l0, l1, l2):
+        for k in range(len(pool)):
+            if v == k:
+                labs.append(pool[k])
+    strip = bool(strip)
+
+    def run():
+        sz, store_mod, FakeZipModule, FakeOS, FakeZip, ProbeStore = _probe_store(env)
+        saved = (sz.zipfile, store_mod.os)
+        sz.zipfile, store_mod.os = FakeZipModule, FakeOS
+        try:
+            st = ProbeStore('probe.zip')
+            st.write(((l, 'frame-' + l) for l in labs))
+            got = [list(st.labels(strip_ext=strip)), sorted(FakeZip.files)]
+            exp = [list(labs) if strip else [l + '.txt' for l in labs], sorted(l + '.txt' for l in labs)]
+            # and every label read back by its own name returns its own bytes
+            got.append([r[0:2] for r in st.read_many(labs)])
+            exp.append([(l, (l, 'frame-' + l, True)) for l in labs])
+            return got, exp
+        finally:
+            sz.zipfile, store_mod.os = saved
+    return rt.untraced(run)
+
+
+_add(Cond('store_zip_labels_roundtrip', [('l0', 'int'), ('l1', 'int'), ('l2', 'int'), ('strip', 'bool')], body_zip_labels,
+        ranges={'l0': (0, 5), 'l1': (0, 5), 'l2': (0, 5)}, pre=['l0 != l1', 'l0 != l2', 'l1 != l2'],
+        functions=['_StoreZip.labels', '_StoreZip.write'],
+        bounds='zipped-store base class over an in-memory archive; three distinct labels symbolic over a pool with dots, the contained extension inside the label, a sub-second timestamp string, and plain labels; strip_ext symbolic',
+        route='_StoreZip.write then labels() / read_many: the labels come back exactly and in order (only the contained extension is removed), each label reads its own member', timeout=300))
